@@ -147,6 +147,10 @@ Definition dispatch0 (line : list N) : list N * list N :=
       if is "mg" op then (m_mg (parse_nat a) (parse_nat b) (parse_hex c), s_mg (parse_nat a) (parse_nat b) (parse_hex c))
       else if is "kmg" op then (m_kmg (parse_nat a) (parse_nat b) (parse_hex c), s_kmg (parse_nat a) (parse_nat b) (parse_hex c))
       else if is "oligo" op then (m_oligo (parse_nat a) (flag b) (parse_hex c), s_oligo (parse_nat a) (flag b) (parse_hex c))
+      else if is "obig" op then
+        (* a record too long for the executable models: the harness checks the proved relation "the raw entries sum to
+           the number of valid windows" (C04_entries_sum_to_window_count) on the implementation's row *)
+        (str "OK", str "OK")
       else if is "obatch" op then (m_obatch (parse_nat a) (flag b) (parse_hex_list c), s_obatch (parse_nat a) (flag b) (parse_hex_list c))
       else unknown
   | [op; a; b; c; d] =>
